@@ -484,6 +484,15 @@ def main(pid, module):
     parser.add_argument("--replay", default=None)
     args = parser.parse_args(sys.argv[2:] if len(sys.argv) > 1 and sys.argv[1] == pid else None)
     seed = int(os.environ.get("VERIF_SEED", "0"))
+    # overall watchdog: a run that hangs (e.g. the code under test loops forever) ends with exit 2,
+    # which is a harness outcome and never a verdict
+    import signal
+    limit = int(os.environ.get("VERIF_TIME_LIMIT", "1500" if args.tier == "quick" else "10800"))
+
+    def _timeout(signum, frame):
+        raise TimeoutError("check exceeded %d s" % limit)
+    signal.signal(signal.SIGALRM, _timeout)
+    signal.alarm(limit)
     try:
         return run_check(pid, args.tier, seed, module, replay=args.replay)
     except Exception:  # pylint: disable=broad-except
